@@ -6,26 +6,28 @@ from rtamt.exception.exception import RTAMTException
 
 class StlHorizon(LtlHorizon, StlAstVisitor):
 
-    def __init__(self):
+    def __init__(self, bounds=None):
         LtlHorizon.__init__(self)
+        # function returning the (begin, end) bounds of a timed node in the default unit
+        self.bounds = bounds if bounds is not None else (lambda node: (node.begin, node.end))
 
     def visit(self, node, *args, **kwargs):
         return StlAstVisitor.visit(self, node, *args, **kwargs)
 
     def visitTimedEventually(self, node, *args, **kwargs):
         op_horizon = self.visit(node.children[0], *args, **kwargs)
-        self.horizons[node] = op_horizon + node.end
-        return op_horizon + node.end
+        self.horizons[node] = op_horizon + self.bounds(node)[1]
+        return op_horizon + self.bounds(node)[1]
 
     def visitTimedAlways(self, node, *args, **kwargs):
         op_horizon = self.visit(node.children[0], *args, **kwargs)
-        self.horizons[node] = op_horizon + node.end
-        return op_horizon + node.end
+        self.horizons[node] = op_horizon + self.bounds(node)[1]
+        return op_horizon + self.bounds(node)[1]
 
     def visitTimedUntil(self, node, *args, **kwargs):
         op1_horizon = self.visit(node.children[0], *args, **kwargs)
         op2_horizon = self.visit(node.children[1], *args, **kwargs)
-        out = max(op1_horizon, op2_horizon) + node.end
+        out = max(op1_horizon, op2_horizon) + self.bounds(node)[1]
         self.horizons[node] = out
         return out
 
